@@ -213,6 +213,7 @@ type Live struct {
 	ID    int
 	B     *board.Board
 	floor int // never pop to a ply below this (fork points of live forks)
+	nq    int // number of records taken of this board (rotates the order of the moved-piece queries)
 }
 
 // Prog is a set of live boards sharing one Zobrist table.
@@ -240,6 +241,16 @@ func (pr *Prog) Rec(l *Live) M {
 	if mm := repRe.FindStringSubmatch(b.String()); mm != nil {
 		reps, _ = strconv.Atoi(mm[1])
 	}
+	// the moved-piece queries in rotating order, the last one being the one the NEXT record of this board
+	// begins with: the same query is then asked twice with exactly one operation in between
+	limits := []int{1, 2, 100000}
+	var moved [3][]int
+	for k := 0; k < 3; k++ {
+		i := (l.nq + k) % 3
+		moved[i] = proj.Squares(b.HasMoved(limits[i]))
+	}
+	_ = b.HasMoved(limits[(l.nq+1)%3])
+	l.nq++
 	pr.nrec++
 	variants := []M{}
 	if pr.nrec%6 == 0 {
@@ -252,7 +263,7 @@ func (pr *Prog) Rec(l *Live) M {
 		"np": b.NoProgress(), "ply": b.Ply(), "fm": b.FullMoves(),
 		"castled": []int{proj.B2I(b.HasCastled(board.White)), proj.B2I(b.HasCastled(board.Black))},
 		"last":    last, "last2": last2,
-		"moved1": proj.Squares(b.HasMoved(1)), "moved2": proj.Squares(b.HasMoved(2)), "movedAll": proj.Squares(b.HasMoved(100000)),
+		"moved1": moved[0], "moved2": moved[1], "movedAll": moved[2],
 		"out": int(b.Result().Outcome), "reason": string(b.Result().Reason), "reps": reps,
 		"fen": fen.Encode(b.Position(), b.Turn(), b.NoProgress(), b.FullMoves()),
 	}
